@@ -40,7 +40,17 @@ const Rule = "cases = (grammar, iteration-shuffle seed, queries) drawn from VERI
 	"terminals and like terminals, the reserved suffixes, the empty name / epsilon / $ / names with spaces, tabs and the " +
 	"protocol's own markers, names that join with a space to other names, upper-case terminals), and a family builds grammars in which two different strings of symbols " +
 	"that the library writes (WriteString, what it hashes) or renders (String()) alike both occur as bodies and behind non-terminals and are both " +
-	"asked of one FIRST closure, in either order; non-trivial = the grammar " +
+	"asked of one FIRST closure, in either order; plus (hardening round) ONE GRAMMAR OBJECT OVER TIME: histories of in-place " +
+	"edits of every kind the API allows (Productions.Add/Remove/RemoveAll, Add/Remove on the set Productions.Get returns or " +
+	"AllByHead yields, p.Body assigned / one symbol of it written through the pointer of a production inside the grammar, " +
+	"Terminals/NonTerminals Add/Remove incl. one out and one in, Start assigned, a field replaced by its clone) with rounds " +
+	"of queries between them; KEPT OBJECTS: a FIRST closure, a FOLLOW function, a parsing table made at one time and asked " +
+	"after edits (judged by the oracle of the grammar they were made from) and a parser object re-used after edits (judged " +
+	"by the grammar as it is); SIZE THRESHOLDS: grammars large in one dimension and small in all others - 63/64/65/66/130/257 " +
+	"(thorough: 1..1025) terminals with the ones that sort last beginning derivations and colliding, as many non-terminals in " +
+	"a chain, alternatives of one head, symbols of one body - queried at both ends, grown past the size and shrunk back; " +
+	"FIRST asked through ONE buffer of the caller that is overwritten with the next string (firstbuf); the lexer of cases " +
+	"with parses ends its input in one of seven ways (header eof=); non-trivial = the grammar " +
 	"has a nullable non-terminal, a left-corner cycle, or an unreachable/unproductive non-terminal; distinct = distinct (header, op list)"
 
 // ---------------------------------------------------------------- independent oracle
@@ -437,12 +447,123 @@ func (n pr) termSet(s set.Set[grammar.Terminal]) strset {
 }
 
 // sliceLexer hands out the tokens of a case line; its call number failAt (counting from 0) answers failErr instead
-// (failErr == nil: never).
+// (failErr == nil: never).  How it says that the input is over is the `eof=` key of the case header (EOFKinds): the
+// Lexer interface only asks for an error, and the parser recognises the end by errors.Is(err, io.EOF), so every kind
+// means "these tokens, then the end" — the Model sees the token list and nothing else.
 type sliceLexer struct {
 	toks    []string
 	i       int
 	failAt  int
 	failErr error
+	eof     string
+	junk    grammar.Terminal // the token handed out together with the end-of-input error by the kinds junk*
+}
+
+// kept is an object that lives across operations: a FIRST closure, a FOLLOW function, a parsing table (each answers for
+// the grammar as it was when the object was made: G and orc are that grammar and its oracle) or a parser with its
+// re-armable lexer (it reads the caller's *CFG at every Parse: it answers for the grammar as it is now).
+type kept struct {
+	kind   string
+	first  grammar.FIRST
+	follow grammar.FOLLOW
+	table  *predictive.ParsingTable
+	parser parser.Parser
+	lex    *sliceLexer
+	G      gx.G
+	orc    *Oracle
+	madeAt int // number of in-place edits of the grammar before the object was made
+}
+
+func setOf(xs []string) strset {
+	m := strset{}
+	for _, x := range xs {
+		m[x] = true
+	}
+	return m
+}
+
+// bareSet drops the ' of terminal words (it depends on which non-terminals are declared at the moment).
+func bareSet(m strset) strset {
+	out := strset{}
+	for w := range m {
+		out[strings.TrimPrefix(w, Q)] = true
+	}
+	return out
+}
+
+// respellT spells a terminal word the way grammar `to` does.
+func respellT(to *gx.G, w string) string {
+	if w == "$" {
+		return w
+	}
+	if b := strings.TrimPrefix(w, Q); to.IsNonTerm(b) {
+		return Q + b
+	} else {
+		return b
+	}
+}
+
+// respell spells the words of a string of symbols, read under the declarations of `from`, the way `to` does.
+func respell(from, to *gx.G, ws []string) []string {
+	out := make([]string, len(ws))
+	for i, w := range ws {
+		nt, b := false, w
+		switch {
+		case strings.HasPrefix(w, "^"):
+			nt, b = true, w[1:]
+		case strings.HasPrefix(w, Q):
+			b = w[1:]
+		default:
+			nt = from.IsNonTerm(w)
+		}
+		switch {
+		case nt && !to.IsNonTerm(b):
+			out[i] = "^" + b
+		case !nt && to.IsNonTerm(b):
+			out[i] = Q + b
+		default:
+			out[i] = b
+		}
+	}
+	return out
+}
+
+// EOFKinds: the ways a lexer may signal the end of its input.
+//
+//	bare     io.EOF itself
+//	wrapped  fmt.Errorf("…: %w", io.EOF), what scanners that add a position do
+//	wrapped2 wrapped twice
+//	custom   an error type of its own whose Is method answers for io.EOF
+//	joined   errors.Join(something, io.EOF)
+//	junk     a token TOGETHER with io.EOF (the parser takes the error: that call is the end, its token is not input)
+//	junkw    a token together with a wrapped io.EOF
+var EOFKinds = []string{"bare", "wrapped", "wrapped2", "custom", "joined", "junk", "junkw"}
+
+type eofLike struct{ at int }
+
+func (e eofLike) Error() string        { return "no more tokens after " + strconv.Itoa(e.at) }
+func (e eofLike) Is(target error) bool { return target == io.EOF }
+
+func (l *sliceLexer) rearm(toks []string, failAt int, failErr error) {
+	l.toks, l.i, l.failAt, l.failErr = toks, 0, failAt, failErr
+}
+
+func (l *sliceLexer) end() (lexer.Token, error) {
+	switch l.eof {
+	case "wrapped":
+		return lexer.Token{}, fmt.Errorf("lexer: end of input at offset %d: %w", l.i, io.EOF)
+	case "wrapped2":
+		return lexer.Token{}, fmt.Errorf("scan: %w", fmt.Errorf("read: %w", io.EOF))
+	case "custom":
+		return lexer.Token{}, eofLike{l.i}
+	case "joined":
+		return lexer.Token{}, errors.Join(errors.New("no more tokens"), io.EOF)
+	case "junk":
+		return lexer.Token{Terminal: l.junk, Lexeme: "junk", Pos: lexer.Position{Offset: l.i}}, io.EOF
+	case "junkw":
+		return lexer.Token{Terminal: l.junk, Lexeme: "junk", Pos: lexer.Position{Offset: l.i}}, fmt.Errorf("lexer: %w", io.EOF)
+	}
+	return lexer.Token{}, io.EOF
 }
 
 func (l *sliceLexer) NextToken() (lexer.Token, error) {
@@ -451,7 +572,7 @@ func (l *sliceLexer) NextToken() (lexer.Token, error) {
 		return lexer.Token{}, l.failErr
 	}
 	if l.i >= len(l.toks) {
-		return lexer.Token{}, io.EOF
+		return l.end()
 	}
 	t := l.toks[l.i]
 	tok := lexer.Token{Terminal: grammar.Terminal(Bare(t)), Lexeme: strconv.Itoa(l.i), Pos: lexer.Position{Offset: l.i}}
@@ -616,6 +737,17 @@ func Exec(c hx.Case) hx.Result {
 	langKk := -1
 	var first grammar.FIRST
 	asked := map[string]string{} // written form -> the string the closure `first` was asked for (first one)
+	// objects kept alive across operations and edits of the grammar (`keep KIND NAME`, `with NAME query`)
+	pool := map[string]*kept{}
+	eofKind := hx.HeaderGet(c.Header, "eof")
+	newLexer := func(w []string) *sliceLexer {
+		l := &sliceLexer{toks: w, eof: eofKind, junk: "junk"}
+		if len(G.Terms) > 0 {
+			l.junk = grammar.Terminal(Bare(G.Terms[0]))
+		}
+		return l
+	}
+	firstBuf := make(grammar.String[grammar.Symbol], 8) // the one buffer all `firstbuf` queries are written into
 	var follow grammar.FOLLOW
 	var tableErr error
 	var table *predictive.ParsingTable
@@ -646,11 +778,124 @@ func Exec(c hx.Case) hx.Result {
 		}
 		return w
 	}
-	// applyDesc folds one description line into G (and into the live object); false: not a description line
+	canonBody := func(ws []string) []string {
+		body := []string{}
+		for _, w := range ws {
+			body = append(body, canon(w))
+		}
+		return body
+	}
+	// redeclare changes the set of declared non-terminals and re-spells every word of G: ' and ^ depend on it
+	redeclare := func(change func()) {
+		type tsym struct {
+			nt bool
+			w  string
+		}
+		typed := func(w string) tsym {
+			switch {
+			case strings.HasPrefix(w, "^"):
+				return tsym{true, w[1:]}
+			case strings.HasPrefix(w, Q):
+				return tsym{false, w[1:]}
+			}
+			return tsym{G.IsNonTerm(w), w}
+		}
+		var bodies [][]tsym
+		for _, p := range G.Prods {
+			var b []tsym
+			for _, w := range p.Body {
+				b = append(b, typed(w))
+			}
+			bodies = append(bodies, b)
+		}
+		change()
+		word := func(t tsym) string {
+			switch {
+			case t.nt && !G.IsNonTerm(t.w):
+				return "^" + t.w
+			case !t.nt && G.IsNonTerm(t.w):
+				return Q + t.w
+			}
+			return t.w
+		}
+		for k, t := range G.Terms {
+			G.Terms[k] = word(tsym{false, strings.TrimPrefix(t, Q)})
+		}
+		for k := range G.Prods {
+			nb := make([]string, len(bodies[k]))
+			for j, t := range bodies[k] {
+				nb[j] = word(t)
+			}
+			G.Prods[k].Body = nb
+		}
+	}
+	hasProd := func(h string, body []string) bool {
+		k := prodKey(h, body)
+		for _, p := range G.Prods {
+			if prodKey(p.Head, p.Body) == k {
+				return true
+			}
+		}
+		return false
+	}
+	headCount := func(h string) int {
+		n := 0
+		for _, p := range G.Prods {
+			if p.Head == h {
+				n++
+			}
+		}
+		return n
+	}
+	dropProd := func(h string, body []string) {
+		k := prodKey(h, body)
+		var ps []gx.P
+		for _, p := range G.Prods {
+			if prodKey(p.Head, p.Body) != k {
+				ps = append(ps, p)
+			}
+		}
+		G.Prods = ps
+	}
+	// headSet: the set of the head's productions inside the live object, as Get hands it out or as AllByHead yields it
+	headSet := func(h string, yielded bool) set.Set[*grammar.Production] {
+		if !yielded {
+			return cfg.Productions.Get(NT(h))
+		}
+		for n, ps := range cfg.Productions.AllByHead() {
+			if n == NT(h) {
+				return ps
+			}
+		}
+		return nil
+	}
+	// livePtr: the *Production inside the live object
+	livePtr := func(q *grammar.Production) *grammar.Production {
+		for p := range cfg.Productions.All() {
+			if p.Equal(q) {
+				return p
+			}
+		}
+		return nil
+	}
+	// applyDesc folds one description line into G (and into the live object); false: not a description line.
+	//   terms / nonterms / start / prod / unprod     Terminals.Add, NonTerminals.Add, Start =, Productions.Add / Remove
+	//   unterm t… / unnonterm A… / unprodall H…       Terminals.Remove, NonTerminals.Remove, Productions.RemoveAll
+	//   getadd H : body / getremove H : body          Add / Remove on the set Productions.Get(H) returns (nothing happens
+	//                                                 when H has no production: Get returns nil; the last production of a
+	//                                                 head is removed through Productions.Remove)
+	//   yieldadd / yieldremove                        the same on the set AllByHead yields for H
+	//   setbody H : old => new                        p.Body = new on the *Production inside the grammar (only when
+	//                                                 H → old is there and H → new is not)
+	//   setsym H i X : body                           p.Body[i] = X, written into the body slice in place (same proviso)
+	//   refresh prods|terms|nonterms                  the field is replaced by a Clone() of itself
 	applyDesc := func(f []string) bool {
 		switch {
 		case f[0] == "terms":
 			for _, t := range f[1:] {
+				if t = strings.TrimPrefix(t, Q); G.IsNonTerm(t) {
+					t = Q + t
+				}
 				if !contains(G.Terms, t) {
 					G.Terms = append(G.Terms, t)
 				}
@@ -658,59 +903,174 @@ func Exec(c hx.Case) hx.Result {
 					cfg.Terminals.Add(grammar.Terminal(Bare(t)))
 				}
 			}
-		case f[0] == "nonterms":
-			for _, n := range f[1:] {
-				if !contains(G.NonTerms, n) {
-					G.NonTerms = append(G.NonTerms, n)
+		case f[0] == "unterm":
+			for _, t := range f[1:] {
+				var ts []string
+				for _, u := range G.Terms {
+					if Bare(u) != Bare(t) {
+						ts = append(ts, u)
+					}
 				}
+				G.Terms = ts
 				if cfg != nil {
-					cfg.NonTerminals.Add(NT(n))
+					cfg.Terminals.Remove(grammar.Terminal(Bare(t)))
 				}
 			}
+		case f[0] == "nonterms":
+			redeclare(func() {
+				for _, n := range f[1:] {
+					n = strings.TrimPrefix(n, "^")
+					if !contains(G.NonTerms, n) {
+						G.NonTerms = append(G.NonTerms, n)
+					}
+					if cfg != nil {
+						cfg.NonTerminals.Add(NT(n))
+					}
+				}
+			})
+		case f[0] == "unnonterm":
+			redeclare(func() {
+				for _, n := range f[1:] {
+					n = strings.TrimPrefix(n, "^")
+					var ns []string
+					for _, u := range G.NonTerms {
+						if u != n {
+							ns = append(ns, u)
+						}
+					}
+					G.NonTerms = ns
+					if cfg != nil {
+						cfg.NonTerminals.Remove(NT(n))
+					}
+				}
+			})
 		case f[0] == "start" && len(f) == 2:
-			G.Start = f[1]
+			G.Start = strings.TrimPrefix(f[1], "^")
 			if cfg != nil {
 				cfg.Start = NT(f[1])
 			}
 		case f[0] == "prod" && len(f) >= 3 && f[2] == ":":
-			body := []string{}
-			for _, w := range f[3:] {
-				body = append(body, canon(w))
-			}
-			k := prodKey(f[1], body)
-			dup := false
-			for _, p := range G.Prods {
-				if prodKey(p.Head, p.Body) == k {
-					dup = true
-				}
-			}
-			if !dup {
-				G.Prods = append(G.Prods, gx.P{Head: f[1], Body: body})
+			h, body := strings.TrimPrefix(f[1], "^"), canonBody(f[3:])
+			if !hasProd(h, body) {
+				G.Prods = append(G.Prods, gx.P{Head: h, Body: body})
 			}
 			if cfg != nil {
-				cfg.Productions.Add(mkProd(f[1], body))
+				cfg.Productions.Add(mkProd(h, body))
 			}
 		case f[0] == "unprod" && len(f) >= 3 && f[2] == ":":
-			body := []string{}
-			for _, w := range f[3:] {
-				body = append(body, canon(w))
+			h, body := strings.TrimPrefix(f[1], "^"), canonBody(f[3:])
+			dropProd(h, body)
+			if cfg != nil {
+				cfg.Productions.Remove(mkProd(h, body))
 			}
-			k := prodKey(f[1], body)
-			var ps []gx.P
-			for _, p := range G.Prods {
-				if prodKey(p.Head, p.Body) != k {
-					ps = append(ps, p)
+		case f[0] == "unprodall":
+			for _, h := range f[1:] {
+				h = strings.TrimPrefix(h, "^")
+				var ps []gx.P
+				for _, p := range G.Prods {
+					if p.Head != h {
+						ps = append(ps, p)
+					}
+				}
+				G.Prods = ps
+				if cfg != nil {
+					cfg.Productions.RemoveAll(NT(h))
 				}
 			}
-			G.Prods = ps
+		case (f[0] == "getadd" || f[0] == "yieldadd") && len(f) >= 3 && f[2] == ":":
+			h, body := strings.TrimPrefix(f[1], "^"), canonBody(f[3:])
+			if headCount(h) > 0 {
+				if cfg != nil {
+					if ps := headSet(h, f[0] == "yieldadd"); ps != nil {
+						ps.Add(mkProd(h, body))
+					}
+				}
+				if !hasProd(h, body) {
+					G.Prods = append(G.Prods, gx.P{Head: h, Body: body})
+				}
+			}
+		case (f[0] == "getremove" || f[0] == "yieldremove") && len(f) >= 3 && f[2] == ":":
+			h, body := strings.TrimPrefix(f[1], "^"), canonBody(f[3:])
+			if hasProd(h, body) {
+				if cfg != nil {
+					if ps := headSet(h, f[0] == "yieldremove"); headCount(h) > 1 && ps != nil {
+						ps.Remove(mkProd(h, body))
+					} else {
+						cfg.Productions.Remove(mkProd(h, body))
+					}
+				}
+				dropProd(h, body)
+			}
+		case f[0] == "setbody" && len(f) >= 3 && f[2] == ":":
+			at := -1
+			for k := 3; k < len(f); k++ {
+				if f[k] == "=>" {
+					at = k
+					break
+				}
+			}
+			if at < 0 {
+				return false
+			}
+			h, old, nb := strings.TrimPrefix(f[1], "^"), canonBody(f[3:at]), canonBody(f[at+1:])
+			if hasProd(h, old) && !hasProd(h, nb) {
+				if cfg != nil {
+					if p := livePtr(mkProd(h, old)); p != nil {
+						p.Body = mkProd(h, nb).Body
+					}
+				}
+				for k, p := range G.Prods {
+					if prodKey(p.Head, p.Body) == prodKey(h, old) {
+						G.Prods[k] = gx.P{Head: h, Body: nb}
+					}
+				}
+			}
+		case f[0] == "setsym" && len(f) >= 5 && f[4] == ":":
+			h, old := strings.TrimPrefix(f[1], "^"), canonBody(f[5:])
+			at, err := strconv.Atoi(f[2])
+			if err != nil || at < 0 || at >= len(old) {
+				break
+			}
+			nb := append([]string{}, old...)
+			nb[at] = canon(f[3])
+			if hasProd(h, old) && !hasProd(h, nb) {
+				if cfg != nil {
+					if p := livePtr(mkProd(h, old)); p != nil {
+						p.Body[at] = P.symOf(nb[at])
+					}
+				}
+				for k, p := range G.Prods {
+					if prodKey(p.Head, p.Body) == prodKey(h, old) {
+						G.Prods[k] = gx.P{Head: h, Body: nb}
+					}
+				}
+			}
+		case f[0] == "refresh" && len(f) == 2:
 			if cfg != nil {
-				cfg.Productions.Remove(mkProd(f[1], body))
+				switch f[1] {
+				case "prods":
+					cfg.Productions = cfg.Productions.Clone()
+				case "terms":
+					cfg.Terminals = cfg.Terminals.Clone()
+				case "nonterms":
+					cfg.NonTerminals = cfg.NonTerminals.Clone()
+				}
 			}
 		default:
 			return false
 		}
+		if f[0] == "setbody" || f[0] == "setsym" {
+			// a table holds the *Production values of the grammar it was built from: an edit through such a pointer shows
+			// in every table that holds it.  Not part of any property; kept tables end here (`with T cell …` answers none).
+			for name, k := range pool {
+				if k.kind == "table" {
+					delete(pool, name)
+				}
+			}
+		}
 		if cfg != nil {
 			mutations++
+			tags["edit:"+f[0]] = true
 		}
 		dirty = true
 		return true
@@ -736,6 +1096,7 @@ func Exec(c hx.Case) hx.Result {
 			tableBuilt = true
 		}
 	}
+	tableOf := func() *predictive.ParsingTable { return table }
 	// setup (re)computes everything that depends on the grammar's current state
 	setup := func() {
 		if cfg == nil {
@@ -761,11 +1122,19 @@ func Exec(c hx.Case) hx.Result {
 				tags["names:multi-character-nonterminal"] = true
 			}
 		}
-		if len(WrittenFormCollisions(G, 3)) > 0 {
-			tags["names:strings-with-equal-written-form"] = true
+		if len(G.Terms)+len(G.NonTerms) <= 12 { // (all strings of length <= 3: small grammars only)
+			if len(WrittenFormCollisions(G, 3)) > 0 {
+				tags["names:strings-with-equal-written-form"] = true
+			}
+			if len(RenderedAlike(G, 3)) > 0 {
+				tags["names:strings-rendered-alike"] = true
+			}
 		}
-		if len(RenderedAlike(G, 3)) > 0 {
-			tags["names:strings-rendered-alike"] = true
+		if n := len(G.Terms); n >= 64 {
+			tags["size:terminals>=64"] = true
+		}
+		if n := len(G.NonTerms); n >= 64 {
+			tags["size:nonterminals>=64"] = true
 		}
 		if valid {
 			orc = NewOracle(G)
@@ -810,6 +1179,9 @@ func Exec(c hx.Case) hx.Result {
 	maxWord := 0
 	for _, op := range c.Ops {
 		f := strings.Fields(op)
+		if len(f) > 2 && f[0] == "with" {
+			f = f[2:]
+		}
 		if len(f) > 0 && (f[0] == "parse" || f[0] == "ast") && len(f)-1 > maxWord {
 			maxWord = len(f) - 1
 		}
@@ -819,6 +1191,13 @@ func Exec(c hx.Case) hx.Result {
 		if len(w) > 8 || len(w) > maxWord {
 			if len(w) > 8 {
 				tags["long-input"] = true
+			}
+			if len(w) > 256 && orc != nil && orc.AllReach && orc.ConflictFree() {
+				// Earley is quadratic on right-recursive grammars: for long inputs of conflict-free grammars the textbook
+				// LL(1) run over the oracle's own table decides membership (it gives up on very long runs)
+				if end, _ := orc.Simulate(w, -1, -1, -1); end != "" {
+					return end == "accept"
+				}
 			}
 			return Earley(G, w)
 		}
@@ -852,6 +1231,12 @@ func Exec(c hx.Case) hx.Result {
 		out := "bad-op"
 		hung := false
 		kind := ""
+		// `with NAME query`: the query goes to the kept object NAME
+		withName := ""
+		if f[0] == "with" && len(f) >= 3 {
+			withName, f = f[1], f[2:]
+		}
+		var kp *kept
 		forced := strings.HasPrefix(f[0], "!")
 		cmd := strings.TrimPrefix(f[0], "!")
 		// judge: the oracle speaks only about grammars that pass Verify(); forced queries on other grammars are
@@ -860,6 +1245,9 @@ func Exec(c hx.Case) hx.Result {
 		run := func() {
 			kind = hx.Try(func() {
 				if cmd == "unchanged" {
+					if !cfg.Equal(cfg) || !clone.Equal(cfg) {
+						bad(i, "the grammar is not Equal to itself, or Equal is not symmetric")
+					}
 					same := cfg.Equal(clone)
 					out = "ok " + strconv.FormatBool(same)
 					if !same {
@@ -881,12 +1269,50 @@ func Exec(c hx.Case) hx.Result {
 					}
 					return
 				}
-				if !valid && !forced {
+				if withName != "" {
+					want := map[string]string{"first": "first", "tryfirst": "first", "firstbuf": "first", "follow": "follow", "cell": "table",
+						"parse": "parser", "ast": "parser", "parse0": "parser", "parsef": "parser", "astf": "parser"}[cmd]
+					if kp = pool[withName]; kp == nil || want == "" || kp.kind != want {
+						kp = nil
+						out = "ok none"
+						return
+					}
+					tags["kept-object-used:"+kp.kind] = true
+					if mutations > kp.madeAt {
+						tags["kept-object-used-after-edit:"+kp.kind] = true
+					}
+				}
+				if !valid && !forced && (kp == nil || kp.kind == "parser") {
 					out = "ok invalid"
 					return
 				}
 				if !valid {
 					tags["forced-on-invalid"] = true
+				}
+				if cmd == "keep" && len(f) == 3 {
+					// objects are made from grammars that pass Verify() only (`!keep` does not exist)
+					if !valid {
+						out = "ok invalid"
+						return
+					}
+					k := &kept{kind: f[1], G: cloneG(G), madeAt: mutations}
+					k.orc = NewOracle(k.G) // of its own: the oracle shares the slices of the grammar it is made from
+					switch f[1] {
+					case "first":
+						k.first = cfg.ComputeFIRST()
+					case "follow":
+						k.follow = cfg.ComputeFOLLOW(cfg.ComputeFIRST())
+					case "table":
+						k.table, _ = predictive.BuildParsingTable(cfg)
+					case "parser":
+						k.lex = newLexer(nil)
+						k.parser = predictive.New(cfg, k.lex)
+					default:
+						return
+					}
+					pool[f[2]] = k
+					out = "ok"
+					return
 				}
 				switch cmd {
 				case "nullable":
@@ -898,17 +1324,34 @@ func Exec(c hx.Case) hx.Result {
 					if judge && showSet(got) != showSet(orc.Nullable) {
 						bad(i, "NullableNonTerminals = %s, the non-terminals deriving ε are %s", showSet(got), showSet(orc.Nullable))
 					}
-				case "first", "tryfirst":
-					if first == nil {
+				case "first", "tryfirst", "firstbuf":
+					if first == nil && kp == nil {
 						first = cfg.ComputeFIRST()
 					}
+					// the closure asked, the grammar it was made from, that grammar's oracle
+					first, og, oo, judge := first, &G, orc, judge
+					ws := f[1:]
+					if kp != nil {
+						first, og, oo, judge = kp.first, &kp.G, kp.orc, true
+						ws = respell(&G, og, f[1:])
+					}
 					s := mkString(f[1:])
-					if prev, ok := asked[WrittenForm(G, f[1:])]; !ok {
+					if cmd == "firstbuf" {
+						// the caller's own slice, used for one string after the other
+						tags["first-through-reused-buffer"] = true
+						if len(s) <= len(firstBuf) {
+							copy(firstBuf, s)
+							s = firstBuf[:len(s)]
+						}
+					}
+					if kp != nil {
+					} else if prev, ok := asked[WrittenForm(G, f[1:])]; !ok {
 						asked[WrittenForm(G, f[1:])] = strings.Join(f[1:], " ")
 					} else if prev != strings.Join(f[1:], " ") {
 						tags["first-asked-for-strings-with-equal-written-form"] = true
 					}
-					if prev, ok := asked["\x00"+Rendered(G, f[1:])]; !ok {
+					if kp != nil {
+					} else if prev, ok := asked["\x00"+Rendered(G, f[1:])]; !ok {
 						asked["\x00"+Rendered(G, f[1:])] = strings.Join(f[1:], " ")
 					} else if prev != strings.Join(f[1:], " ") {
 						tags["first-asked-for-strings-rendered-alike"] = true
@@ -929,8 +1372,8 @@ func Exec(c hx.Case) hx.Result {
 					got := P.termSet(r.Terminals)
 					out = fmt.Sprintf("ok %s eps=%v", showSet(got), r.IncludesEmpty)
 					declared := true
-					for _, w := range f[1:] {
-						if !G.IsNonTerm(w) && !contains(G.Terms, w) {
+					for _, w := range ws {
+						if !og.IsNonTerm(w) && !contains(og.Terms, w) {
 							declared = false
 						}
 					}
@@ -938,32 +1381,36 @@ func Exec(c hx.Case) hx.Result {
 						tags["first-memo-partial-value"] = true
 					}
 					if declared && judge {
-						want, eps := orc.FirstStr(f[1:])
-						if showSet(got) != showSet(want) || eps != r.IncludesEmpty {
+						want, eps := oo.FirstStr(ws)
+						if showSet(bareSet(got)) != showSet(bareSet(want)) || eps != r.IncludesEmpty {
 							bad(i, "FIRST(%s) = %s eps=%v, left-corner reachability gives %s eps=%v", showBody(f[1:]), showSet(got), r.IncludesEmpty, showSet(want), eps)
 						}
 					}
 				case "follow":
 					// FOLLOW is computed from a FIRST closure of its own (the one the `first` queries go to may hold
 					// partial values left behind by a caught panic)
-					if follow == nil {
+					if follow == nil && kp == nil {
 						follow = cfg.ComputeFOLLOW(cfg.ComputeFIRST())
+					}
+					follow, G, orc, judge := follow, G, orc, judge
+					if kp != nil {
+						follow, G, orc, judge = kp.follow, kp.G, kp.orc, true
 					}
 					A := strings.TrimPrefix(f[1], "^")
 					r := follow(NT(A))
-					got := P.termSet(r.Terminals)
-					out = fmt.Sprintf("ok %s end=%v", showSet(got), r.IncludesEndmarker)
+					got := bareSet(P.termSet(r.Terminals))
+					out = fmt.Sprintf("ok %s end=%v", showSet(P.termSet(r.Terminals)), r.IncludesEndmarker)
 					if !judge {
 						break
 					}
 					if orc.AllReach {
-						if showSet(got) != showSet(orc.follow[A]) || r.IncludesEndmarker != orc.followEnd[A] {
+						if showSet(got) != showSet(bareSet(orc.follow[A])) || r.IncludesEndmarker != orc.followEnd[A] {
 							bad(i, "FOLLOW(%s) = %s end=%v, follow-graph reachability gives %s end=%v", A, showSet(got), r.IncludesEndmarker, showSet(orc.follow[A]), orc.followEnd[A])
 						}
 					} else if orc.Reach[A] {
 						// the property is silent here; what can follow A in a sentential form must still be present
 						sub := NewOracle(restricted(G, orc.Reach))
-						for t := range sub.follow[A] {
+						for t := range bareSet(sub.follow[A]) {
 							if !got[t] {
 								bad(i, "FOLLOW(%s) = %s misses %s, which follows it in a sentential form", A, showSet(got), t)
 							}
@@ -1109,11 +1556,21 @@ func Exec(c hx.Case) hx.Result {
 					if len(f) != 3 {
 						return
 					}
-					ensureTable()
+					table, G, orc, judge := table, G, orc, judge
+					if kp != nil {
+						table, G, orc, judge = kp.table, kp.G, kp.orc, true
+					} else {
+						ensureTable()
+						table = tableOf()
+					}
 					A, a := strings.TrimPrefix(f[1], "^"), f[2]
 					ta := grammar.Terminal(Bare(a))
 					if a == "$" {
 						ta = grammar.Endmarker
+					}
+					if kp != nil {
+						// the words as the kept grammar spells them
+						a = respellT(&kp.G, a)
 					}
 					empty, sync := table.IsEmpty(NT(A), ta), table.IsSync(NT(A), ta)
 					gp, ok := table.GetProduction(NT(A), ta)
@@ -1136,13 +1593,21 @@ func Exec(c hx.Case) hx.Result {
 						if len(cell) == 1 {
 							want = cell[0]
 						}
+						if kp != nil && showSet(setOf(kp.G.NonTerms)) != showSet(setOf(P.g.NonTerms)) {
+							want = pk // productions are spelled by the declarations of the moment: compared only when these are the same
+						}
 						if empty != (len(cell) == 0) || pk != want || sync != (len(cell) == 0 && inFollow) {
 							bad(i, "M[%s,%s]: IsEmpty=%v IsSync=%v GetProduction=%s; the textbook cell is %v, %s in FOLLOW(%s): %v", A, a, empty, sync, pk, cell, a, A, inFollow)
 						}
 					}
 				case "parse", "ast", "parse0":
 					w := f[1:]
-					p := predictive.New(cfg, &sliceLexer{toks: w})
+					p := predictive.New(cfg, newLexer(w))
+					if kp != nil {
+						// the kept parser, its lexer loaded with the new input
+						kp.lex.rearm(w, 0, nil)
+						p = kp.parser
+					}
 					var prods []string
 					var err error
 					var root parser.Node
@@ -1230,11 +1695,15 @@ func Exec(c hx.Case) hx.Result {
 					if cmd == "parsef" {
 						tokAt, prodAt = faultArg(f[2]), faultArg(f[3])
 					}
-					lx := &sliceLexer{toks: w, failAt: lexAt}
+					lx := newLexer(w)
+					p := predictive.New(cfg, lx)
+					if kp != nil {
+						lx, p = kp.lex, kp.parser
+					}
+					lx.rearm(w, lexAt, nil)
 					if lexAt >= 0 {
 						lx.failErr = errLexer
 					}
-					p := predictive.New(cfg, lx)
 					var evs []string
 					nProd := 0
 					var err error
@@ -1337,17 +1806,21 @@ func Exec(c hx.Case) hx.Result {
 			res.Outs = append(res.Outs, "panic")
 			// the FIRST / FOLLOW closures panic on undeclared symbols by contract
 			undeclared := false
-			if cmd == "first" || cmd == "follow" {
-				for _, w := range f[1:] {
-					if !G.IsNonTerm(w) && !contains(G.Terms, w) {
+			if cmd == "first" || cmd == "firstbuf" || cmd == "follow" {
+				dg, ws := &G, f[1:]
+				if kp != nil {
+					dg, ws = &kp.G, respell(&G, &kp.G, f[1:])
+				}
+				for _, w := range ws {
+					if !dg.IsNonTerm(w) && !contains(dg.Terms, w) {
 						undeclared = true
 					}
 				}
-				if cmd == "follow" && len(f) > 1 && !G.IsNonTerm(f[1]) {
+				if cmd == "follow" && len(f) > 1 && !dg.IsNonTerm(strings.TrimPrefix(f[1], "^")) {
 					undeclared = true
 				}
 			}
-			if !undeclared && valid {
+			if !undeclared && (valid || (kp != nil && kp.kind != "parser")) {
 				bad(i, "%s panicked (%s)", op, kind)
 			}
 			tags["panic"] = true
@@ -2389,6 +2862,429 @@ func Colliding(r *hx.Rand, g gx.G, sc NameScheme) (gx.G, [][]string) {
 	return DropOrderTies(g), pair
 }
 
+// ---------------------------------------------------------------- one grammar object over time: every way to edit it in place
+
+// EditKinds is the number of kinds of edit RandomEdit makes.
+const EditKinds = 13
+
+func bodyUses(g gx.G, w string) bool {
+	for _, p := range g.Prods {
+		for _, x := range p.Body {
+			if x == w {
+				return true
+			}
+		}
+	}
+	return false
+}
+
+func headCountOf(g gx.G, h string) int {
+	n := 0
+	for _, p := range g.Prods {
+		if p.Head == h {
+			n++
+		}
+	}
+	return n
+}
+
+func replaceProd(g *gx.G, old, nw gx.P) {
+	ps := append([]gx.P{}, g.Prods...)
+	for i, p := range ps {
+		if prodKey(p.Head, p.Body) == prodKey(old.Head, old.Body) {
+			ps[i] = nw
+		}
+	}
+	g.Prods = ps
+}
+
+func removeProdOf(g *gx.G, old gx.P) {
+	var ps []gx.P
+	for _, p := range g.Prods {
+		if prodKey(p.Head, p.Body) != prodKey(old.Head, old.Body) {
+			ps = append(ps, p)
+		}
+	}
+	g.Prods = ps
+}
+
+func without(xs []string, x string) []string {
+	var out []string
+	for _, y := range xs {
+		if y != x {
+			out = append(out, y)
+		}
+	}
+	return out
+}
+
+// RandomEdit makes one in-place edit of kind `kind` (mod EditKinds) of the grammar *g — through Productions.Add / Remove /
+// RemoveAll, through the set Productions.Get returns or AllByHead yields, through the pointer of a production inside the
+// grammar (its Body assigned, one element of its Body written), through the sets of terminals and non-terminals (also
+// one in, one out: the sizes stay), through the fields themselves — and returns its description lines; *g is the grammar
+// afterwards.  n numbers the new names.  No line when the grammar has no room for that kind of edit.
+func RandomEdit(r *hx.Rand, g *gx.G, kind, n int) []string {
+	existing := func(minHead int) (gx.P, bool) {
+		var c []gx.P
+		for _, p := range g.Prods {
+			if headCountOf(*g, p.Head) >= minHead {
+				c = append(c, p)
+			}
+		}
+		if len(c) == 0 {
+			return gx.P{}, false
+		}
+		return c[r.Intn(len(c))], true
+	}
+	unusedTerm := func() (string, bool) {
+		var c []string
+		for _, t := range g.Terms {
+			if !bodyUses(*g, t) {
+				c = append(c, t)
+			}
+		}
+		if len(c) == 0 {
+			return "", false
+		}
+		return c[r.Intn(len(c))], true
+	}
+	switch kind % EditKinds {
+	case 0: // Productions.Add
+		if p, ok := RandomProd(r, *g); ok {
+			g.Prods = append(append([]gx.P{}, g.Prods...), p)
+			return []string{descLine("prod", p)}
+		}
+	case 1: // Productions.Remove
+		if p, ok := existing(2); ok {
+			removeProdOf(g, p)
+			return []string{descLine("unprod", p)}
+		}
+	case 2: // Add on the set of the head
+		if p, ok := RandomProd(r, *g); ok && headCountOf(*g, p.Head) > 0 {
+			g.Prods = append(append([]gx.P{}, g.Prods...), p)
+			return []string{descLine([]string{"getadd", "yieldadd"}[r.Intn(2)], p)}
+		}
+	case 3: // Remove on the set of the head
+		if p, ok := existing(2); ok {
+			removeProdOf(g, p)
+			return []string{descLine([]string{"getremove", "yieldremove"}[r.Intn(2)], p)}
+		}
+	case 4: // p.Body = …
+		if old, ok := existing(1); ok {
+			h := *g
+			h.Prods = nil
+			for _, p := range g.Prods { // RandomProd picks a head: offer it this one only
+				if p.Head == old.Head {
+					h.Prods = append(h.Prods, p)
+				}
+			}
+			h.NonTerms = append([]string{old.Head}, without(g.NonTerms, old.Head)...)
+			for try := 0; try < 8; try++ {
+				nw, ok := RandomProd(r, h)
+				if ok && nw.Head == old.Head {
+					replaceProd(g, old, nw)
+					return []string{strings.TrimRight("setbody "+old.Head+" : "+strings.Join(old.Body, " ")+" => "+strings.Join(nw.Body, " "), " ")}
+				}
+			}
+		}
+	case 5: // p.Body[i] = X
+		if old, ok := existing(1); ok && len(old.Body) > 0 {
+			for try := 0; try < 8; try++ {
+				i := r.Intn(len(old.Body))
+				x := hx.Pick(r, append(append([]string{}, g.NonTerms...), g.Terms...))
+				nb := append([]string{}, old.Body...)
+				nb[i] = x
+				dup := false
+				for _, p := range g.Prods {
+					if prodKey(p.Head, p.Body) == prodKey(old.Head, nb) {
+						dup = true
+					}
+				}
+				if !dup {
+					replaceProd(g, old, gx.P{Head: old.Head, Body: nb})
+					return []string{fmt.Sprintf("setsym %s %d %s : %s", old.Head, i, x, strings.Join(old.Body, " "))}
+				}
+			}
+		}
+	case 6: // Terminals.Add, and a production that begins with the new terminal, added through the head's set
+		t := fmt.Sprintf("zq%d", n)
+		g.Terms = append(append([]string{}, g.Terms...), t)
+		ls := []string{"terms " + t}
+		if p, ok := existing(1); ok && r.Chance(2, 3) {
+			nw := gx.P{Head: p.Head, Body: []string{t}}
+			g.Prods = append(append([]gx.P{}, g.Prods...), nw)
+			ls = append(ls, descLine("getadd", nw))
+		}
+		return ls
+	case 7: // Terminals.Remove
+		if t, ok := unusedTerm(); ok && len(g.Terms) > 1 {
+			g.Terms = without(g.Terms, t)
+			return []string{"unterm " + t}
+		}
+	case 8: // one terminal out, one in: the size of the set stays
+		if t, ok := unusedTerm(); ok {
+			nt := fmt.Sprintf("zq%d", n)
+			g.Terms = append(without(g.Terms, t), nt)
+			ls := []string{"unterm " + t, "terms " + nt}
+			if r.Chance(1, 2) {
+				ls[0], ls[1] = ls[1], ls[0]
+			}
+			return ls
+		}
+	case 9: // NonTerminals.Add with a production, reached from an existing head
+		x := fmt.Sprintf("Xq%d", n)
+		g.NonTerms = append(append([]string{}, g.NonTerms...), x)
+		nw := gx.P{Head: x, Body: []string{hx.Pick(r, g.Terms)}}
+		g.Prods = append(append([]gx.P{}, g.Prods...), nw)
+		ls := []string{"nonterms " + x, descLine("prod", nw)}
+		if p, ok := existing(1); ok && r.Chance(2, 3) {
+			use := gx.P{Head: p.Head, Body: []string{hx.Pick(r, g.Terms), x}}
+			g.Prods = append(g.Prods, use)
+			ls = append(ls, descLine([]string{"prod", "getadd"}[r.Intn(2)], use))
+		}
+		return ls
+	case 10: // Productions.RemoveAll and NonTerminals.Remove of a non-terminal no body uses
+		var c []string
+		for _, x := range g.NonTerms {
+			if x != g.Start && !bodyUses(*g, x) && !contains(g.Terms, Q+x) {
+				c = append(c, x)
+			}
+		}
+		if len(c) > 0 {
+			x := c[r.Intn(len(c))]
+			var ps []gx.P
+			for _, p := range g.Prods {
+				if p.Head != x {
+					ps = append(ps, p)
+				}
+			}
+			g.Prods, g.NonTerms = ps, without(g.NonTerms, x)
+			return []string{"unprodall " + x, "unnonterm " + x}
+		}
+	case 11: // a field replaced by a clone of itself
+		return []string{"refresh " + []string{"prods", "terms", "nonterms"}[r.Intn(3)]}
+	case 12: // Start = another non-terminal
+		x := hx.Pick(r, g.NonTerms)
+		if headCountOf(*g, x) > 0 {
+			g.Start = x
+			return []string{"start " + x}
+		}
+	}
+	return nil
+}
+
+// EditHistory: rounds of queries (q gives them for the grammar as it is) with in-place edits of every kind between
+// them, on one grammar object.  from: the kind of the first edit (the kinds follow each other, so that a family
+// numbered from 0 meets every kind first).
+func EditHistory(r *hx.Rand, g gx.G, from, rounds int, q func(gx.G) []string) []string {
+	ops := append(g.Lines(), q(g)...)
+	g2 := cloneG(g)
+	for k := 0; k < rounds; k++ {
+		kind := from + k
+		if k > 0 && r.Chance(1, 3) {
+			kind = r.Intn(EditKinds)
+		}
+		ls := RandomEdit(r, &g2, kind, k)
+		if ls == nil {
+			ls = RandomEdit(r, &g2, 2, k) // the default: Add on the set of a head
+		}
+		ops = append(ops, ls...)
+		ops = append(ops, q(g2)...)
+	}
+	return ops
+}
+
+// KeptHistory: objects made at one time and used after the grammar has been edited: a FIRST closure, a FOLLOW
+// function, a parsing table (they answer for the grammar as it was) and a parser (it answers for the grammar as it is).
+// words: the inputs for the parser.
+func KeptHistory(r *hx.Rand, g gx.G, from int, words func(gx.G) []string) []string {
+	ops := append(g.Lines(), "keep first F1", "keep follow O1", "keep table T1", "keep parser P1")
+	askKept := func(g0 gx.G, tag string) []string {
+		var qs []string
+		ss := Strings(g0, 2)
+		for k := 0; k < 6 && len(ss) > 0; k++ {
+			pre := "first "
+			if r.Chance(1, 4) {
+				pre = "firstbuf "
+			}
+			qs = append(qs, "with F"+tag+" "+pre+strings.Join(ss[r.Intn(len(ss))], " "))
+		}
+		for _, n := range g0.NonTerms {
+			if r.Chance(2, 3) {
+				qs = append(qs, "with O"+tag+" follow "+n)
+			}
+			for _, t := range append(append([]string{}, g0.Terms...), "$") {
+				if r.Chance(1, 3) {
+					qs = append(qs, "with T"+tag+" cell "+n+" "+t)
+				}
+			}
+		}
+		return qs
+	}
+	askParser := func(gNow gx.G, tag string) []string {
+		var qs []string
+		for _, w := range words(gNow) {
+			cmd := "parse"
+			switch r.Intn(8) {
+			case 0:
+				cmd = "ast"
+			case 1:
+				cmd = "parse0"
+			}
+			qs = append(qs, strings.TrimRight("with P"+tag+" "+cmd+" "+w, " "))
+		}
+		return qs
+	}
+	ops = append(ops, askKept(g, "1")...)
+	ops = append(ops, askParser(g, "1")...)
+	g2 := cloneG(g)
+	for k := 0; k < 3; k++ {
+		kind := from + k
+		if kind%EditKinds == 10 { // the kept objects are asked about the symbols of their grammar: keep them declared
+			kind = 2
+		}
+		ls := RandomEdit(r, &g2, kind, k)
+		if ls == nil {
+			ls = RandomEdit(r, &g2, 0, k)
+		}
+		ops = append(ops, ls...)
+		ops = append(ops, askParser(g2, "1")...)
+		ops = append(ops, askKept(g, "1")...)
+		if k == 1 {
+			// a second generation of objects, made from the edited grammar
+			ops = append(ops, "keep first F2", "keep parser P2")
+			if qs := askKept(g2, "2"); len(qs) > 3 {
+				ops = append(ops, qs[:3]...)
+			}
+		}
+		if k == 2 {
+			ops = append(ops, askParser(g2, "2")...)
+		}
+		ops = append(ops, "ll1", "table")
+	}
+	ops = append(ops, "with F9 first", "with P1 first", "unchanged")
+	return ops
+}
+
+// BufferQueries asks one FIRST closure for many strings through ONE buffer of the caller (`firstbuf`), each string
+// written over the one before, then for some of them again.
+func BufferQueries(r *hx.Rand, g gx.G, n int) []string {
+	ss := Strings(g, 3)
+	var ops []string
+	for k := 0; k < n && len(ss) > 0; k++ {
+		s := ss[r.Intn(len(ss))]
+		ops = append(ops, "firstbuf "+strings.Join(s, " "))
+		if r.Chance(1, 6) {
+			ops = append(ops, "first "+strings.Join(s, " "))
+		}
+	}
+	return ops
+}
+
+// ---------------------------------------------------------------- size thresholds
+
+// SweepSizes are the sizes the threshold families visit (quick: the ones around 64 and 256 and one large one).
+func SweepSizes(thorough bool) []int {
+	if thorough {
+		return []int{1, 2, 63, 64, 65, 66, 127, 128, 129, 130, 255, 256, 257, 258, 1023, 1024, 1025}
+	}
+	return []int{63, 64, 65, 66, 130, 257}
+}
+
+func numbered(prefix string, n int) []string {
+	out := make([]string, n)
+	for i := range out {
+		out[i] = fmt.Sprintf("%s%04d", prefix, i)
+	}
+	return out
+}
+
+// Sweep builds a grammar that is large in ONE dimension — n terminals, n non-terminals, one head with n alternatives, one
+// body of n symbols — and small in all others, in which the symbols at the far end of the dimension (the terminals that
+// sort last, the last non-terminal of a chain, the last alternative, the last symbol of the body) take part in the
+// FIRST and FOLLOW sets; with the queries that look at both ends, an LL(1) conflict on a late terminal, and edits that
+// grow the grammar past the size and shrink it back.
+func Sweep(r *hx.Rand, dim string, n int) (gx.G, []string) {
+	var g gx.G
+	var qs []string
+	late := func(xs []string) []string { // the members around the thresholds and at both ends
+		var out []string
+		for _, i := range []int{0, 1, 62, 63, 64, 65, 127, 128, 129, 255, 256, 257, len(xs) - 2, len(xs) - 1} {
+			if i >= 0 && i < len(xs) && !contains(out, xs[i]) {
+				out = append(out, xs[i])
+			}
+		}
+		return out
+	}
+	switch dim {
+	case "terminals":
+		// S -> A B ; A -> t (for the late t) | ε ; B -> t A (for the late t) | t_last | t_last S : a conflict on the last terminal
+		ts := numbered("t", n)
+		g = gx.G{Terms: ts, NonTerms: []string{"S", "A", "B"}, Start: "S"}
+		g.Prods = append(g.Prods, gx.P{Head: "S", Body: []string{"A", "B"}}, gx.P{Head: "A"})
+		for _, t := range late(ts) {
+			g.Prods = append(g.Prods, gx.P{Head: "A", Body: []string{t}})
+		}
+		for _, t := range late(ts)[len(late(ts))/2:] {
+			g.Prods = append(g.Prods, gx.P{Head: "B", Body: []string{t, "A"}})
+		}
+		g.Prods = append(g.Prods, gx.P{Head: "B", Body: []string{ts[n-1]}}, gx.P{Head: "B", Body: []string{ts[n-1], "S"}})
+		qs = append(qs, "nullable", "first S", "first A", "first B", "first A B", "first B A", "first A A "+ts[n-1], "follow S", "follow A", "follow B", "ll1", "table")
+		for _, t := range late(ts) {
+			qs = append(qs, "first "+t, "cell A "+t, "cell B "+t, "cell S "+t)
+		}
+		// one more terminal, sorted last, beginning a derivation; and away again
+		nt := fmt.Sprintf("t%04d", n)
+		qs = append(qs, "terms "+nt, "getadd A : "+nt, "first S", "first A", "follow B", "ll1", "cell A "+nt, "cell S "+nt, "table",
+			"getremove A : "+nt, "unterm "+nt, "first S", "follow A", "table", "unchanged")
+	case "nonterminals":
+		// a chain N0 -> N1 | a, …, N_last -> b | ε : FIRST(N0) gets b only through all of them
+		ns := numbered("N", n)
+		g = gx.G{Terms: []string{"a", "b", "c"}, NonTerms: ns, Start: ns[0]}
+		for i := 0; i+1 < n; i++ {
+			g.Prods = append(g.Prods, gx.P{Head: ns[i], Body: []string{ns[i+1], "c"}})
+			if i%7 == 0 {
+				g.Prods = append(g.Prods, gx.P{Head: ns[i], Body: []string{"a"}})
+			}
+		}
+		g.Prods = append(g.Prods, gx.P{Head: ns[n-1], Body: []string{"b"}}, gx.P{Head: ns[n-1]})
+		qs = append(qs, "nullable", "ll1", "table")
+		for _, x := range late(ns) {
+			qs = append(qs, "first "+x, "follow "+x, "cell "+x+" b", "cell "+x+" c")
+		}
+		nn := fmt.Sprintf("N%04d", n)
+		qs = append(qs, "nonterms "+nn, "prod "+nn+" : a b", "getadd "+ns[n-1]+" : "+nn, "first "+ns[0], "first "+nn, "follow "+nn, "ll1",
+			"getremove "+ns[n-1]+" : "+nn, "unprodall "+nn, "unnonterm "+nn, "first "+ns[0], "follow "+ns[n-1], "unchanged")
+	case "alternatives":
+		// S -> t_i A (one alternative per terminal) | ε ; A -> S | t_0
+		ts := numbered("t", n)
+		g = gx.G{Terms: ts, NonTerms: []string{"S", "A"}, Start: "S"}
+		for _, t := range ts {
+			g.Prods = append(g.Prods, gx.P{Head: "S", Body: []string{t, "A"}})
+		}
+		g.Prods = append(g.Prods, gx.P{Head: "S"}, gx.P{Head: "A", Body: []string{"S"}}, gx.P{Head: "A", Body: []string{ts[0]}})
+		qs = append(qs, "nullable", "first S", "first A", "first A S", "follow S", "follow A", "ll1", "table")
+		for _, t := range late(ts) {
+			qs = append(qs, "cell S "+t, "cell A "+t)
+		}
+		qs = append(qs, "getremove S : "+ts[n-1]+" A", "first S", "ll1", "cell S "+ts[n-1], "getadd S : "+ts[n-1]+" A", "first S", "cell S "+ts[n-1], "unchanged")
+	case "body":
+		// S -> A^(n-1) b ; A -> a | ε : FIRST(S) has b only behind n-1 nullable symbols
+		body := make([]string, n)
+		for i := range body {
+			body[i] = "A"
+		}
+		body[n-1] = "b"
+		g = gx.G{Terms: []string{"a", "b"}, NonTerms: []string{"S", "A"}, Start: "S",
+			Prods: []gx.P{{Head: "S", Body: body}, {Head: "A", Body: []string{"a"}}, {Head: "A"}}}
+		qs = append(qs, "nullable", "first S", "first A", "first "+strings.Join(body, " "), "first "+strings.Join(body[1:], " "), "first "+strings.Join(body[:n-1], " "),
+			"follow S", "follow A", "ll1", "table",
+			fmt.Sprintf("setsym S %d A : %s", n-1, strings.Join(body, " ")), "nullable", "first S", "follow A", "ll1",
+			"unchanged")
+	}
+	return g, qs
+}
+
 func descLine(kind string, p gx.P) string {
 	return strings.TrimRight(kind+" "+p.Head+" : "+strings.Join(p.Body, " "), " ")
 }
@@ -2548,6 +3444,55 @@ func Main(run *hx.Run) {
 				ops = append(ops, strings.TrimRight("first "+strings.Join(pair[i], " "), " "))
 			}
 			c := hx.Case{Header: fmt.Sprintf("comp=analysis mix=name-collisions names=%s shuffle=%d", sc.Name, r.Intn(1<<30)), Ops: ops}
+			run.Do("analysis", c, Exec)
+		}
+	}
+	// one grammar object over time: every way the API lets a caller change it in place, queries before and after
+	{
+		r := run.R.Fork("edits")
+		for k := 0; k < run.Scale(130); k++ {
+			g, nm := MaybeRename(r, gx.Random(r, mixes[names[r.Intn(len(names))]]), k)
+			ops := EditHistory(r, g, k, 4, func(h gx.G) []string { return queriesOnly(r, h, 16) })
+			c := hx.Case{Header: fmt.Sprintf("comp=analysis mix=edits names=%s shuffle=%d", nm, r.Intn(1<<30)), Ops: ops}
+			run.Do("analysis", c, Exec)
+		}
+	}
+	// objects kept across edits: FIRST closure, FOLLOW function, table (the grammar as it was), parser (as it is)
+	{
+		r := run.R.Fork("kept-objects")
+		for k := 0; k < run.Scale(60); k++ {
+			g, nm := MaybeRename(r, gx.Random(r, mixes[names[r.Intn(len(names))]]), k)
+			ops := KeptHistory(r, g, k, func(h gx.G) []string {
+				ws := h.Words(2)
+				var out []string
+				for j := 0; j < 5; j++ {
+					out = append(out, ws[r.Intn(len(ws))])
+				}
+				return out
+			})
+			c := hx.Case{Header: fmt.Sprintf("comp=analysis mix=kept-objects names=%s eof=%s shuffle=%d", nm, EOFKinds[k%len(EOFKinds)], r.Intn(1<<30)), Ops: ops}
+			run.Do("analysis", c, Exec)
+		}
+	}
+	// size thresholds: one dimension large, all others small
+	{
+		r := run.R.Fork("sweep")
+		for _, dim := range []string{"terminals", "nonterminals", "alternatives", "body"} {
+			for _, n := range SweepSizes(run.Thorough()) {
+				g, qs := Sweep(r, dim, n)
+				c := hx.Case{Header: fmt.Sprintf("comp=analysis mix=sweep dim=%s size=%d shuffle=%d", dim, n, r.Intn(1<<30)), Ops: append(g.Lines(), qs...)}
+				run.Do("analysis", c, Exec)
+			}
+		}
+	}
+	// the caller's slice used for one string after the other (kept last: see the fix of the memo table's key)
+	{
+		r := run.R.Fork("reused-buffer")
+		for k := 0; k < run.Scale(40); k++ {
+			g, nm := MaybeRename(r, gx.Random(r, mixes[names[r.Intn(len(names))]]), k)
+			ops := append(g.Lines(), BufferQueries(r, g, 50)...)
+			ops = append(ops, queriesOnly(r, g, 12)...)
+			c := hx.Case{Header: fmt.Sprintf("comp=analysis mix=reused-buffer names=%s shuffle=%d", nm, r.Intn(1<<30)), Ops: ops}
 			run.Do("analysis", c, Exec)
 		}
 	}
